@@ -100,6 +100,10 @@ class MinSetCover():
         """
         start_time = time.perf_counter()
 
+        # A previous successful solve() must not make this run look solved if it ends inconclusively
+        self._is_solved = False
+        self._solution = None
+
         self.solver.optimize()
         if self.solver.get_model_status() == "kOptimal":
             subset_cover_sol = self.solver.get_values(self.subset_vars)
